@@ -30,6 +30,13 @@ def make_fuzz_facet(name, target, replay_fns, runs, max_len=96):
         out = os.path.join(work, 'out')
         corpus = os.path.join(work, 'corpus')
         os.makedirs(corpus)
+        # starting corpus: a few full-length byte strings (a pure function of the seed) - with an empty corpus libFuzzer spends a short campaign
+        # on inputs of a few bytes, which decode to degenerate cases (all later choices default to 0)
+        import numpy as _np
+        _rs = _np.random.RandomState(seed * 1000 + shard + 1)
+        for i in range(24):
+            with open(os.path.join(corpus, 'seed%02d' % i), 'wb') as fh:
+                fh.write(bytes(_rs.randint(0, 256, size=max_len if i % 3 else max_len // 2).tolist()))
         n = runs[tier]
         cmd = [sys.executable, os.path.join(HERE, 'fuzz', 'driver.py'), target, out, '-runs=%d' % n, '-seed=%d' % (seed * 1000 + shard + 1),
                '-max_len=%d' % max_len, '-artifact_prefix=%s/' % work, '-print_final_stats=0', corpus]
